@@ -145,6 +145,7 @@ def run(run: common.Run):
     from homonim.errors import BlockSizeError
     quick = run.quick()
     run_direct(run, quick)
+    overview_leg(run)
     run.rule = ('(a) _convert_array_dtype on 63 adversarial/random float32 values x 7 dtypes x 5-7 nodata settings, every pixel vs '
                 'the model; (b) float32 fusions (data chosen to give negatives, half-integers, > 2^32, +-inf) repeated with '
                 'dtype x nodata x driver (GTiff, PNG) x lossless creation options: every output pixel and mask vs the model conversion '
@@ -256,3 +257,41 @@ def compare_file(case, m, im):
         if not exp_valid and nd not in ('null',) and xs not in ('?',) and ys != xs and not (xs == 'nan' and ys == 'nan'):
             return f'invalid pixel {k}: stored {ys}, expected the nodata value {xs}'
     return None
+
+
+def overview_leg(run):
+    """
+    Overviews (`build_ovw=True`, built for images of at least 512 pixels along the shorter side) must not change anything at
+    full resolution: pixels, masks, tags and descriptions of the corrected and parameter images are those of the run without
+    overviews; the overview levels exist and are powers of two.
+    """
+    import c04
+    tmp = run.tmpdir()
+    rng = run.rng('ovw')
+    src = rasters.Grid(8 * 9000, 8 * 9000, 8, 8, 530 + rng.randint(0, 20), 520 + rng.randint(0, 20))
+    ref = rasters.Grid(8 * 9000 - 64, 8 * 9000 + 64, 32, 32, src.w // 4 + 6, src.h // 4 + 6)
+    s = np.add.outer(np.arange(src.h) % 37, np.arange(src.w) % 41).astype(float)[None] + 20
+    r = np.add.outer(np.arange(ref.h) % 11, np.arange(ref.w) % 13).astype(float)[None] * 3 + 30
+    sv = np.ones((src.h, src.w), bool)
+    sv[100:140, 200:260] = False
+    pair = fusion.write_pair(tmp, 'c13ovw', src, ref, s, r, sv, None)
+    outs = {}
+    for ovw in (False, True):
+        try:
+            res = fusion.run_fuse(pair.src_path, pair.ref_path, tmp / f'c13ovw_{int(ovw)}.tif', model='gain', kernel_shape=(3, 3),
+                                  param=True, threads=2, build_ovw=ovw, out_profile=dict(dtype='int16', nodata=-32768))
+        except Exception as ex:
+            run.fail(dict(i=5_000_000, op='overviews', build_ovw=ovw), f'fusion raised {type(ex).__name__}: {ex}',
+                     signature=dict(kind='raises'))
+            return
+        with rio.open(res.corr_path) as ds, rio.open(res.param_path) as pds:
+            outs[ovw] = (c04.read_result_any(res.corr_path), c04.read_result_any(res.param_path), ds.overviews(1), pds.overviews(1))
+    run.evaluations += 2
+    run.hist['overview runs'] += 2
+    case = dict(i=5_000_001, op='overviews', shape=(src.h, src.w))
+    a, b = outs[False], outs[True]
+    if not c04.same(a[0], b[0]) or not c04.same(a[1], b[1]):
+        run.fail(case, 'building overviews changed the full-resolution corrected or parameter image', signature=dict(kind='overviews'))
+    elif a[2] or a[3] or not b[2] or any(l & (l - 1) for l in b[2] + b[3]):
+        run.fail(case, f'overview levels: without build_ovw {a[2]} / {a[3]}, with build_ovw {b[2]} / {b[3]}',
+                 signature=dict(kind='overviews'))
